@@ -435,3 +435,179 @@ func vfH_C08_two_conns() {
 	}
 	vfrt.Assert(ok, "two/first-connection-tlvs-unaffected-by-a-later-header")
 }
+
+//vf:assume C08-entry: a connection accepted by the real Listener (connfu wrapper switched off) with a v2 TCP4 header that is well-formed or has a symbolic wrong version nibble; the first operation on it is one of RemoteAddr, LocalAddr, Read, Write, ReadFrom, WriteTo, Header; the socket also implements io.ReaderFrom / io.WriterTo (like *net.TCPConn)
+
+type vfFullConn struct {
+	*vfConn
+	wrote    [][]byte
+	readFrom int
+	writeTo  int
+}
+
+func (c *vfFullConn) Write(p []byte) (int, error) {
+	c.wrote = append(c.wrote, append([]byte{}, p...))
+	return len(p), nil
+}
+func (c *vfFullConn) ReadFrom(r io.Reader) (int64, error) { c.readFrom++; return 7, nil }
+func (c *vfFullConn) WriteTo(w io.Writer) (int64, error)  { c.writeTo++; return 9, nil }
+
+type vfAcceptOnce struct{ c net.Conn }
+
+func (l *vfAcceptOnce) Accept() (net.Conn, error) { return l.c, nil }
+func (l *vfAcceptOnce) Close() error              { return nil }
+func (l *vfAcceptOnce) Addr() net.Addr            { return nil }
+
+//vf:harness property=C08 nopanic reach=entry-accepted,entry-rejected
+func vfH_C08_entry() {
+	verCmd := vfrt.Byte("vercmd")
+	vfrt.Assume(verCmd&0x0F == 1)
+	body := vfrt.Bytes("addresses", 12)
+	payload := vfrt.Bytes("payload", 2)
+	data := append([]byte{}, V2Identifier...)
+	data = append(data, verCmd, 0x11, 0, 12)
+	data = append(data, body...)
+	data = append(data, payload...)
+	sock := &vfFullConn{vfConn: vfNewConn(data)}
+	timeout := time.Duration(vfrt.Choice("listener-header-timeout-seconds", 3)) * time.Second
+	l := &Listener{Listener: &vfAcceptOnce{sock}, ReadHeaderTimeout: timeout, TestingSkipConnfu: true}
+	ac, err := l.Accept()
+	vfrt.Assert(err == nil, "entry/accepted-by-the-listener")
+	c, ok := ac.(*Conn)
+	vfrt.Assert(ok && c.readHeaderTimeout == timeout, "entry/connection-carries-the-listener-header-timeout")
+	if !ok {
+		return
+	}
+	wellFormed := verCmd&0xF0 == 0x20
+	op := vfrt.Choice("first-operation", 7)
+	var opErr error
+	var n64 int64
+	buf := make([]byte, 2)
+	switch op {
+	case 0:
+		c.RemoteAddr()
+	case 1:
+		c.LocalAddr()
+	case 2:
+		_, opErr = c.Read(buf)
+	case 3:
+		_, opErr = c.Write([]byte("hi"))
+	case 4:
+		n64, opErr = c.ReadFrom(nil)
+	case 5:
+		n64, opErr = c.WriteTo(nil)
+	case 6:
+		_, opErr = c.Header()
+	}
+	// whichever operation comes first, the header is read exactly once and exactly to its end
+	vfrt.Assert(c.isHeaderRead.Load(), "entry/first-operation-reads-the-header")
+	if !wellFormed {
+		vfrt.Reach("entry-rejected")
+		vfrt.Assert(c.headerErr != nil, "entry/malformed-header-rejected")
+		if op >= 2 {
+			vfrt.Assert(opErr != nil, "entry/operations-on-a-connection-with-a-bad-header-fail")
+		}
+		vfrt.Assert(len(sock.wrote) == 0 && sock.readFrom == 0 && sock.writeTo == 0, "entry/nothing-passes-through-a-connection-with-a-bad-header")
+		_, werr := c.Write([]byte("x"))
+		_, rerr := c.Read(buf)
+		vfrt.Assert(werr != nil && rerr != nil, "entry/connection-with-a-bad-header-stays-failed")
+		vfrt.Assert(c.RemoteAddr() == sock.remote && c.LocalAddr() == sock.local, "entry/rejected-uses-socket-addrs")
+		return
+	}
+	vfrt.Reach("entry-accepted")
+	vfrt.Assert(c.headerErr == nil && opErr == nil, "entry/well-formed-header-accepted-whatever-comes-first")
+	switch op {
+	case 2:
+		vfrt.Assert(buf[0] == payload[0] && buf[1] == payload[1] && sock.pos == len(data), "entry/read-returns-the-bytes-behind-the-header")
+	case 3:
+		vfrt.Assert(len(sock.wrote) == 1 && string(sock.wrote[0]) == "hi", "entry/write-passes-through-after-the-header")
+	case 4:
+		vfrt.Assert(sock.readFrom == 1 && n64 == 7, "entry/readfrom-passes-through-after-the-header")
+	case 5:
+		vfrt.Assert(sock.writeTo == 1 && n64 == 9, "entry/writeto-passes-through-after-the-header")
+	}
+	if op != 2 {
+		vfrt.Assert(sock.pos == 28, "entry/header-consumed-exactly")
+	}
+	sp := int(body[8])<<8 | int(body[9])
+	dp := int(body[10])<<8 | int(body[11])
+	vfrt.Assert(vfSameIP4(c.RemoteAddr(), body[0], body[1], body[2], body[3], sp, false), "entry/source-reported")
+	vfrt.Assert(vfSameIP4(c.LocalAddr(), body[4], body[5], body[6], body[7], dp, false), "entry/destination-reported")
+	h, herr := c.Header()
+	vfrt.Assert(herr == nil && !h.IsLocal && h.Version == 2, "entry/header-available")
+}
+
+//vf:assume C08-concurrent: two goroutines use one connection at the same time - one asks for RemoteAddr, the other reads - before the header has arrived (the socket's Read blocks until the harness feeds it: first the v2 TCP4 header with symbolic addresses, then 2 payload bytes); goroutines are scheduled cooperatively (DESIGN 8.8); the harness waits for both with a timeout (1 s natively; in the model the timer fires only when every goroutine is blocked)
+
+type vfFeedConn struct {
+	*vfConn
+	feed    chan []byte
+	pending []byte
+}
+
+func (c *vfFeedConn) Read(p []byte) (int, error) {
+	if len(c.pending) == 0 {
+		b, ok := <-c.feed
+		if !ok {
+			return 0, io.EOF
+		}
+		c.pending = b
+	}
+	n := copy(p, c.pending)
+	c.pending = c.pending[n:]
+	return n, nil
+}
+
+//vf:harness property=C08 nopanic reach=concurrent-callers
+func vfH_C08_concurrent() {
+	body := vfrt.Bytes("addresses", 12)
+	payload := vfrt.Bytes("payload", 2)
+	hdr := append([]byte{}, V2Identifier...)
+	hdr = append(hdr, 0x21, 0x11, 0, 12)
+	hdr = append(hdr, body...)
+	sock := &vfFeedConn{vfConn: vfNewConn(nil), feed: make(chan []byte, 4)}
+	c := &Conn{Conn: sock}
+	var remote net.Addr
+	var got []byte
+	var rerr error
+	done := make(chan struct{}, 2)
+	readerFirst := vfrt.Choice("reader-starts-first", 2) == 1
+	askAddr := func() {
+		remote = c.RemoteAddr()
+		done <- struct{}{}
+	}
+	read := func() {
+		buf := make([]byte, 2)
+		var n int
+		n, rerr = io.ReadFull(c, buf)
+		got = buf[:n]
+		done <- struct{}{}
+	}
+	if readerFirst {
+		go read()
+		go askAddr()
+	} else {
+		go askAddr()
+		go read()
+	}
+	sock.feed <- hdr
+	sock.feed <- payload
+	finished := 0
+	for finished < 2 {
+		select {
+		case <-done:
+			finished++
+			continue
+		case <-time.After(time.Second):
+		}
+		break
+	}
+	vfrt.Assert(finished == 2, "concurrent/both-callers-complete-once-the-header-has-arrived")
+	if finished != 2 {
+		return
+	}
+	vfrt.Reach("concurrent-callers")
+	sp := int(body[8])<<8 | int(body[9])
+	vfrt.Assert(vfSameIP4(remote, body[0], body[1], body[2], body[3], sp, false), "concurrent/source-reported-to-the-concurrent-caller")
+	vfrt.Assert(rerr == nil && len(got) == 2 && got[0] == payload[0] && got[1] == payload[1], "concurrent/reader-gets-exactly-the-bytes-behind-the-header")
+}
